@@ -414,14 +414,22 @@ def _load(fn_ref):
     return getattr(importlib.import_module(mod), name)
 
 
-def run_sym(fn, params, decisions=None, max_decisions=64):
+def run_sym(fn, params, decisions=None, max_decisions=64, nostubs=False):
     del sr.PC[:]
     sr.reset_divs()
     ctx = Ctx('sym', decisions=decisions, max_decisions=max_decisions)
     sr._decider[0] = ctx.decide
     try:
-        with symnp.symbolic():
-            fn(ctx, **params)
+        if nostubs:
+            # purely structural scenario (no symbolic data reaches the library): run on the unpatched modules
+            symnp.uninstall()
+            import warnings
+            with warnings.catch_warnings(), np.errstate(all='ignore'):
+                warnings.simplefilter('ignore')
+                fn(ctx, **params)
+        else:
+            with symnp.symbolic():
+                fn(ctx, **params)
     finally:
         sr._decider[0] = None
         del sr.PC[:]
@@ -439,7 +447,7 @@ def run_conc(fn, params, env=None, seed=0, mode='conc'):
     return ctx
 
 
-def explore(fn, params, max_paths=256, max_decisions=64):
+def explore(fn, params, max_paths=256, max_decisions=64, nostubs=False):
     """all paths of a scenario: list of Ctx.  Most scenarios have exactly one path."""
     paths = []
     work = [[]]
@@ -447,7 +455,7 @@ def explore(fn, params, max_paths=256, max_decisions=64):
     while work:
         dec = work.pop()
         try:
-            ctx = run_sym(fn, params, decisions=dec, max_decisions=max_decisions)
+            ctx = run_sym(fn, params, decisions=dec, max_decisions=max_decisions, nostubs=nostubs)
         except Infeasible:
             continue
         paths.append(ctx)
@@ -612,7 +620,7 @@ def process_scenario(task):
         params = task['params']
         timeout = task.get('timeout', 20)
         paths, trunc = explore(fn, params, max_paths=task.get('max_paths', 256),
-                               max_decisions=task.get('max_decisions', 64))
+                               max_decisions=task.get('max_decisions', 64), nostubs=task.get('nostubs', False))
         out['paths'] = len(paths)
         out['truncated'] = trunc
         if trunc:
